@@ -456,6 +456,42 @@ class CFG:
         starts = [(h, 0) for h in a.esucc] if from_exception else [(a, 1)]
         return (b.id, 0) in self._pp_reach(starts, avoid=avoid, normal_only=normal_only)
 
+    def reaching_defs(self, name: str):
+        """node id -> set of nodes whose binding of local `name` may reach the evaluation of that node."""
+        def binds(n):
+            st = n.stmt
+            tg = []
+            if n.kind == 'stmt' and isinstance(st, ast.Assign):
+                tg = st.targets
+            elif n.kind == 'stmt' and isinstance(st, (ast.AugAssign, ast.AnnAssign)):
+                tg = [st.target]
+            elif n.kind == 'for':
+                tg = [st.target]
+            elif n.kind == 'with':
+                tg = [i.optional_vars for i in st.items if i.optional_vars is not None]
+            for t in tg:
+                for x in ast.walk(t):
+                    if isinstance(x, ast.Name) and x.id == name and isinstance(x.ctx, ast.Store):
+                        return True
+            return False
+        defs = {n.id for n in self.nodes if binds(n)}
+        d_in = {n.id: set() for n in self.nodes}
+        d_out = {n.id: set() for n in self.nodes}
+        changed = True
+        while changed:
+            changed = False
+            for n in self.nodes:
+                new_in = set()
+                for p in n.pred:
+                    new_in |= d_out[p.id]
+                for p in n.epred:
+                    new_in |= d_in[p.id] | d_out[p.id]
+                new_out = {n.id} if n.id in defs else new_in
+                if new_in != d_in[n.id] or new_out != d_out[n.id]:
+                    d_in[n.id], d_out[n.id] = new_in, new_out
+                    changed = True
+        return {nid: {self.nodes[i] for i in ids} for nid, ids in d_in.items()}
+
     def held_withs(self, n: Node, suffix: str | None = None):
         """Enclosing with statements (and matching item text) of node n whose item text ends with suffix."""
         out = []
